@@ -321,8 +321,12 @@ def check(run, driver):
             pool = [Fraction(0), Fraction(1, 2), Fraction(1), float("nan")]  # NaN landscapes
         else:
             nan_mode = True
+        if it % 10 == 7:       # landscapes whose values differ far below any display precision: all tiny (weak couplings) ...
+            pool, nan_mode, mode = [Fraction(k, 16) / 2**43 for k in range(16)], False, 4        # (steps of 7e-15, all exactly representable)
+        elif it % 10 == 9:     # ... or nearly equal (strongly redundant predictors); "largest" is still decided exactly
+            pool, nan_mode, mode = [Fraction(1, 4) + Fraction(k, 2**40) for k in range(12)], False, 5        # (steps of 9e-13)
         w, S, trace = run_impl(kind, ncand, nz, [], rng=rng, nan_mode=nan_mode, pool=pool)
-        jobs.append((f"sampled-{kind}" + ("-nan" if mode in (2, 3) else ""), kind, ncand, nz, w, S, None))
+        jobs.append((f"sampled-{kind}" + ("-nan" if mode in (2, 3) else ("-fine" if mode in (4, 5) else "")), kind, ncand, nz, w, S, None))
     reqs, meta = [], []
     for (suite, kind, ncand, nz, w, S, S_init) in jobs:
         replay, spec, evs = requests_for(kind, ncand, nz, w, S, S_init)
